@@ -6,7 +6,7 @@ V = os.path.dirname(os.path.dirname(os.path.abspath(__file__)))
 CHECKS = {
  # id: (category, technique, text, note, design_ref)
  "C01": ("exploration", "runtime reference-model monitor over generated tables and writer configurations, ASan/UBSan on writer+reader, mtbl_dump output parsed and compared",
-         "Generated strictly increasing sequences (binary keys, empty key, keys/values >=128 B and >=16 KiB, entries larger than a block, long shared prefixes) are written by the real writer under generated configurations (6 compression types x level classes incl. clamped x block sizes x restart intervals x pool sizes x foreign prefixes x madvise/verify) and read back entry by entry against the sequence; a sampled subset goes through the real mtbl_dump with -k/-v/-K/-V filters. Sampled inputs, no exhaustiveness claim.",
+         "Generated strictly increasing sequences (binary keys, empty key, keys/values >=128 B and >=16 KiB, entries larger than a block, long shared prefixes) are written by the real writer under generated configurations (6 compression types x level classes incl. clamped x block sizes x restart intervals x pool sizes x foreign prefixes x madvise/verify) and read back entry by entry against the sequence; a sampled subset goes through the real mtbl_dump with -k/-v/-K/-V filters; lengths on varint boundaries (2^7, 2^14, 2^21) and tables behind sparse foreign prefixes of 2^31..5*2^32 bytes are generated on purpose. Sampled inputs, no exhaustiveness claim.",
          "trusted: harness generator/model (harness/gen.h, common.h), gcc ASan/UBSan", "DESIGN.md §4 C01"),
  "C02": ("exploration", "runtime reference-model monitor with query sets derived from each table (stored keys, neighbours, prefixes, index separators), ASan",
          "For each generated multi-block table every derived query is run through mtbl_source_get / get_prefix (exhaustively over the derived set) and get_range (all pairs on small sets, seeded pairs otherwise, incl. inverted/equal/empty bounds); every iterator is drained against the sorted-array model and checked for sticky failure.",
@@ -18,13 +18,13 @@ CHECKS = {
          "Every file the real writer emits for the C01 generator is parsed without the library and checked against each structural rule of the statement (contiguity from the initial offset, foreign bytes untouched, length prefixes, CRC-32C, index entries/offsets/separator interval, trailer padding+magic, restart validity and cadence, maximal prefix elision, block-size rules in the two stated directions). Per-rule counters show which rules were exercised.",
          "trusted: harness/refdec.c and the compression libraries it calls directly", "DESIGN.md §4 C09"),
  "C10": ("exploration", "runtime differential monitor: metadata accessors and parsed mtbl_info output vs truth recomputed from file bytes by the independent decoder",
-         "For generated files (incl. empty table, foreign prefix, pooled writers, interleaved refused adds) all ten mtbl_metadata_* accessors are compared with counts and byte extents recomputed from the bytes; the real mtbl_info is parsed for a sampled subset.",
+         "For generated files (incl. empty table, foreign prefix, pooled writers, interleaved refused adds) all ten mtbl_metadata_* accessors are compared with counts and byte extents recomputed from the bytes; the real mtbl_info is parsed for a sampled subset; one table larger than 4 GiB (every byte counter and offset crosses 2^32) is written and compared with frame lengths read independently.",
          "trusted: harness/refdec.c; if the decoder cannot establish the truth the run is inconclusive, not a violation", "DESIGN.md §4 C10"),
  "C15": ("exploration", "runtime round-trip monitor over (algorithm, level, buffer) with exact-size ASan buffers; exhaustive over lengths 0..64 x 5 contents",
          "Every length 0..64 x five contents (exhaustive) and seeded structured/incompressible buffers up to MiBs are compressed by mtbl_compress and mtbl_compress_level (levels from far below the minimum to far above the maximum), copied to an exact-size buffer, decompressed and compared; aborts are observed as process deaths; names round-trip and unknown names / out-of-enum types are refused.",
          "trusted: gcc ASan; compress failure is allowed by the statement and only counted", "DESIGN.md §4 C15"),
  "C17": ("exploration", "runtime differential monitor vs bit-at-a-time CRC-32C on exact-size ASan buffers; all lengths 0..1100 x alignments 0..7, both implementations called directly",
-         "mtbl_crc32c, my_crc32c_slicing and (when the CPU has SSE4.2) my_crc32c_sse42 are compared with a bitwise reference on every length 0..1100 at every alignment, every byte value at every position mod 8, RFC 3720 vectors and random buffers; the table-driven path is also forced through the public entry point.",
+         "mtbl_crc32c, my_crc32c_slicing and (when the CPU has SSE4.2) my_crc32c_sse42 are compared with a bitwise reference on every length 0..1100 at every alignment, every byte value at every position mod 8, RFC 3720 vectors, random buffers and five sparse buffers of 2^31-5 .. 2^32+8005 bytes (reference built from a GF(2) zero-run operator); the table-driven path is also forced through the public entry point.",
          "trusted: 8-line bitwise CRC in harness/h_c17.c (self-checked against RFC 3720 vectors); hardware path covered only if cpuid reports SSE4.2", "DESIGN.md §4 C17"),
  "C08": ("exploration", "runtime reference-model monitor of every mtbl_writer_add return value over adversarial key sequences; finished file vs accepted subsequence; pre-existing targets snapshot-compared",
          "Add sequences with ~40% deliberately non-increasing keys (equal, proper prefix, byte lowered, 0xff tails, bytes crossing 0x7f/0x80, empty first key) are fed to the real writer; each return value is compared with the model (key > last accepted, own unsigned comparator), the finished file (independent decoder, real reader, count_entries) with the accepted subsequence; mtbl_writer_init on six kinds of pre-existing target must return NULL and leave lstat+content unchanged.",
@@ -45,10 +45,10 @@ CHECKS = {
          "Families of 0-12 sources (real tables and user-defined sources that free/re-allocate their buffers on every call, duplicate keys inside user sources, empty sources, the empty key in none/one/all sources; layouts random/identical/disjoint/interleaved/nested) are merged in four modes (merge function, none, none+dupsort, failing merge function) and observed through mtbl_iter_next, mtbl_source_write + read back and the real mtbl_merge; values are lists of unique ids so the final value shows exactly which source values were folded and how often.",
          "trusted: model + merge function in harness/family.h, msmerge.h; order among equal keys without dupsort is compared as a multiset", "DESIGN.md §4 C04"),
  "C05": ("exploration", "online model-shadowed iterators on merger sources: derived lookups, full (position,target) product on small families, random interleaved histories, buffer-stability monitor, ASan",
-         "The merger source is treated as one table holding the merged content: derived query sets (incl. first/last key of every source) for get/get_prefix/get_range; the complete product of ways-to-reach-a-position x seek targets (always including the key just returned, backwards after exhaustion, keys that need merging) on small families; random 40-200 op histories on up to four interleaved merger iterators; merge-function mode and dupsort mode.",
+         "The merger source is treated as one table holding the merged content: derived query sets (incl. first/last key of every source) for get/get_prefix/get_range; the complete product of ways-to-reach-a-position x seek targets (always including the key just returned, backwards after exhaustion, keys that need merging) on small families; random 40-200 op histories on up to four interleaved merger iterators with one-off merge-function failures injected (the call fails, stays failed until a seek, a retry by seek yields the full fold); merge-function mode and dupsort mode.",
          "trusted: model in harness/family.h + itercheck.h", "DESIGN.md §4 C05"),
  "C06": ("exploration", "runtime reference-model monitor of the sorter with mkstemp interposed (ld --wrap) to observe every spill: location, count and deadline; MTBL_VERIF hook for tiny chunks",
-         "Add sequences (random/sorted/reverse/all-equal/duplicates adjacent or spread, empty key, empty input) x memory limits from one entry per chunk to everything in memory x pools {none,0,1,2,4,8}; output through the iterator (full or abandoned) or mtbl_sorter_write compared with the model (multiset merge); every mkstemp template must lie in the configured temp dir, buffered payload must stay below the limit after every add (synchronous spills), spill count has a lower bound, temp dir empty afterwards; add/write refused after iteration began.",
+         "Add sequences (random/sorted/reverse/all-equal/duplicates adjacent or spread, empty key, empty input) x memory limits from one entry per chunk to everything in memory x pools {none,0,1,2,4,8}; output through the iterator (full or abandoned) or mtbl_sorter_write compared with the model (multiset merge); every mkstemp template must lie in the configured temp dir, buffered payload must stay below the limit after every add (synchronous spills), spill count has a lower bound, temp dir empty afterwards; add/write refused after iteration began; with a failing merge function either a call reports the failure or the output must be complete.",
          "trusted: mkstemp shim; loosest reading of 'buffered entries reach the memory limit' (payload bytes)", "DESIGN.md §4 C06"),
  "C07": ("exploration", "event-trace monitor: virtual CLOCK_MONOTONIC and stat(setfile) interposed (ld --wrap), model of the shared view updated at each observed reload attempt, snapshot-shadowed iterators, ASan",
          "Random and scripted histories over 1-5 handles (dups with other intervals/filters/merge options), table files created/replaced/deleted, setfile rewrites, clock advances, reload/reload_now, iterators opened/advanced/sought/closed, handles destroyed in any order. P1: no stat(setfile) while an iterator is open; P2: forced/interval reload deadline at source operations; P3: a new iterator returns merge(view as of latest reload, filtered per handle); P4: older iterators keep their snapshot; ASan catches any use of an unloaded reader.",
